@@ -158,6 +158,9 @@ def setitem(I, m: SMap, key, value):
     s = find_slot(I, m, kt)
     s.value = value
     s.origin = "stored"
+    pr = getattr(m.vtype, "promise", None)
+    if pr is not None and hasattr(value, "ghost") and "promise" not in value.ghost:
+        value.ghost["promise"] = pr
     _set_has(m, kt, True)
     if I.frame_check_map is not None:
         I.frame_check_map(m)
